@@ -287,6 +287,10 @@ class AccessControl:
         return False, response
 
 
+# Index files a directory request is answered with (StaticFileHandler defaults)
+INDEX_FILE_NAMES = ("index.gmi", "index.gemini")
+
+
 @dataclass
 class CertificateAuthPathRule:
     """Certificate auth rule for a specific path prefix.
@@ -380,11 +384,30 @@ class CertificateAuth:
             The first matching rule, or None if no rule matches.
         """
         for rule in self.config.path_rules:
-            # "/dir" names the same resource as "/dir/" when it is a directory,
-            # so a rule for "/dir/" must cover it as well
-            if path.startswith(rule.prefix) or (path + "/").startswith(rule.prefix):
+            if path.startswith(rule.prefix):
                 return rule
         return None
+
+    def _candidate_locations(self, path: str) -> list[str]:
+        """List the resources a request for ``path`` may end up delivering.
+
+        The middleware cannot know whether the path names a file or a
+        directory, nor whether a directory has an index file: "/dir", "/dir/"
+        and "/dir/index.gmi" can all be the same document. Each of these
+        locations has its own first matching rule, and the client has to
+        satisfy all of them.
+
+        Args:
+            path: The canonical request path.
+
+        Returns:
+            The path as a file, as a directory, and the directory's index files.
+        """
+        base = path.rstrip("/")
+        locations = [base] if base else []
+        locations.append(base + "/")
+        locations.extend(base + "/" + name for name in INDEX_FILE_NAMES)
+        return locations
 
     async def process_request(
         self,
@@ -405,24 +428,26 @@ class CertificateAuth:
         # Extract path from URL
         path = self._extract_path(request_url)
 
-        # Find matching rule (first match wins)
-        rule = self._find_matching_rule(path)
+        # Every resource the request may deliver has its own rule (first match
+        # wins); the request proceeds only if all of them admit the client
+        for location in self._candidate_locations(path):
+            rule = self._find_matching_rule(location)
 
-        if rule is None:
-            # No rule matches - allow without cert
-            return True, None
+            if rule is None:
+                # No rule matches this location - no certificate requirements
+                continue
 
-        # Apply rule's requirements
-        if rule.require_cert and client_cert_fingerprint is None:
-            return False, "60 Client certificate required\r\n"
-
-        if rule.allowed_fingerprints is not None:
-            if client_cert_fingerprint is None:
-                # Whitelist requires a cert
+            # Apply rule's requirements
+            if rule.require_cert and client_cert_fingerprint is None:
                 return False, "60 Client certificate required\r\n"
 
-            if client_cert_fingerprint not in rule.allowed_fingerprints:
-                return False, "61 Certificate not authorized\r\n"
+            if rule.allowed_fingerprints is not None:
+                if client_cert_fingerprint is None:
+                    # Whitelist requires a cert
+                    return False, "60 Client certificate required\r\n"
+
+                if client_cert_fingerprint not in rule.allowed_fingerprints:
+                    return False, "61 Certificate not authorized\r\n"
 
         return True, None
 
